@@ -1,4 +1,6 @@
 REGISTRY = {
     "C01": "c01_liveset",
+    "C02": "c02_evidence",
     "C04": "c04_store",
+    "C10": "c10_batch",
 }
